@@ -14,7 +14,7 @@ import (
 //
 //	(1) one obligation per `range` over a map in the analysis code: the loop body must be insensitive to the order in
 //	    which keys are produced - it emits no diagnostic and prints nothing, it only writes locations keyed by the
-//	    iteration key / stores constants / counts, or it builds a list that is sorted before use; an emission guarded by
+//	    iteration key / stores constants / counts, or it builds a list that is sorted before use (error messages included); an emission guarded by
 //	    `value == <loop-invariant>` is accepted under the stated injectivity assumption (at most one key can match);
 //	(2) deny list: no call to clocks, random sources or process identity from the analysis packages;
 //	(3) no `go` statement in the analysis packages (concurrency lives in the CLI only, see C04).
@@ -222,6 +222,9 @@ func classifyMapRange(fn *ssa.Function, rng *ssa.Range, emit map[*ssa.Function]b
 					problems = append(problems, "call through a function value")
 					continue
 				}
+				if why := orderSensitiveCall(fn, callee, cc, derived); why != "" {
+					problems = append(problems, why)
+				}
 				_, _, w := isWarnFunc(callee)
 				k := extKey(callee)
 				if w || emit[callee] || strings.HasPrefix(k, "log.Print") || strings.HasPrefix(k, "fmt.Print") {
@@ -263,7 +266,7 @@ func classifyMapRange(fn *ssa.Function, rng *ssa.Range, emit map[*ssa.Function]b
 				}
 			}
 		}
-		if !sorted && !onlyErrorPath(fn, loop) {
+		if !sorted {
 			problems = append(problems, "builds a list in iteration order that is not sorted afterwards")
 		}
 	}
@@ -347,4 +350,63 @@ func onlyErrorPath(fn *ssa.Function, loop map[*ssa.BasicBlock]bool) bool {
 		}
 	}
 	return false
+}
+
+
+// observer packages: their functions and methods do not change state that outlives the call
+var c02PurePkgs = map[string]bool{"strings": true, "strconv": true, "sort": true, "path/filepath": true, "path": true, "unicode": true, "unicode/utf8": true,
+	"go/types": true, "go/token": true, "go/ast": true, "go/constant": true, "regexp": true, "bytes": true, "errors": true, "reflect": true, "math": true,
+	"fmt": true, "flag": true, "golang.org/x/tools/go/ast/astutil": true, "github.com/go-toolsmith/astequal": true, "github.com/go-toolsmith/astcast": true,
+	"github.com/go-toolsmith/astfmt": true, "github.com/go-toolsmith/typep": true, "github.com/go-toolsmith/astp": true, "github.com/go-toolsmith/strparse": true}
+
+// orderSensitiveCall: a call inside a range-over-map loop that may change state shared between iterations - the effect would
+// then depend on the order in which the keys are produced. Accepted: observers, and calls whose receiver / pointer arguments
+// are derived from the iteration element or allocated by the function itself.
+func orderSensitiveCall(fn *ssa.Function, callee *ssa.Function, cc *ssa.CallCommon, derived map[ssa.Value]bool) string {
+	localOrDerived := func(v ssa.Value) bool {
+		if derived[v] {
+			return true
+		}
+		switch x := v.(type) {
+		case *ssa.Alloc, *ssa.MakeMap, *ssa.MakeSlice, *ssa.Const, *ssa.MakeInterface:
+			_ = x
+			return true
+		case *ssa.FieldAddr:
+			return rootIsAlloc(x, 0)
+		case *ssa.IndexAddr:
+			return rootIsAlloc(x, 0)
+		}
+		return false
+	}
+	if callee.Pkg == nil && callee.Object() == nil {
+		return ""
+	}
+	pkgPath := ""
+	if callee.Pkg != nil {
+		pkgPath = callee.Pkg.Pkg.Path()
+	} else if o := callee.Object(); o != nil && o.Pkg() != nil {
+		pkgPath = o.Pkg().Path()
+	}
+	if strings.HasPrefix(pkgPath, repoMod) {
+		return "" // repository functions: emissions are tracked separately; their stores are classified where they happen
+	}
+	if c02PurePkgs[pkgPath] {
+		if pkgPath == "fmt" && (strings.HasPrefix(callee.Name(), "Print") || strings.HasPrefix(callee.Name(), "Fprint")) {
+			return ""
+		}
+		return ""
+	}
+	// other dependency: a method on a value that is neither the iteration element nor local may accumulate state in key order
+	if callee.Signature.Recv() != nil && len(cc.Args) > 0 {
+		if _, isPtr := callee.Signature.Recv().Type().Underlying().(*types.Pointer); isPtr && !localOrDerived(cc.Args[0]) {
+			return "calls " + extKey(callee) + " on an object shared between iterations: its effect depends on the order of the keys"
+		}
+		return ""
+	}
+	for _, a := range cc.Args {
+		if _, isPtr := a.Type().Underlying().(*types.Pointer); isPtr && !localOrDerived(a) {
+			return "passes an object shared between iterations to " + extKey(callee) + ": its effect depends on the order of the keys"
+		}
+	}
+	return ""
 }
